@@ -29,4 +29,5 @@ def run(ctx, rep):
     rep.run(RM.rule_group_by_name, ctx, rep, "T6")
     rep.run(RF.rule_item_state_defined_before_use, ctx, rep, "T7", packages=("gtwrap/matlab_wrapper",), min_classes=3)
     rep.run(RF.rule_memo_key_complete, ctx, rep, "T8", packages=("gtwrap/matlab_wrapper",), min_functions=50)
+    rep.run(RM.rule_one_scope_for_class_names, ctx, rep, "T9")
     rep.run(RF.rule_locals_defined, ctx, rep, "U1", packages=("gtwrap/matlab_wrapper",), min_functions=3)
